@@ -2,6 +2,9 @@ import Driver.ExprOps
 import Driver.IntervalOps
 import Driver.RvOps
 import Driver.OpcodeOps
+import Driver.BasicBlockOps
+import Driver.BytesMemOps
+import Driver.FormatOps
 /-
 Registry of all operation handlers of the model driver.  One line per component.
 -/
@@ -11,6 +14,9 @@ def allHandlers : List (String × Handler) :=
   exprHandlers ++
   intervalHandlers ++
   rvHandlers ++
-  opcodeHandlers
+  opcodeHandlers ++
+  basicBlockHandlers ++
+  bytesMemHandlers ++
+  formatHandlers
 
 end Driver
